@@ -11,12 +11,15 @@ import (
 
 // Hooks lets a property observe a generated history.
 type Hooks struct {
-	AfterBegin  func(req BlockReq)
-	BeforeTx    func(m *TxMeta)
-	AfterTx     func(m *TxMeta, r abci.ResponseDeliverTx)
-	BeforeEnd   func(h uint64)
-	AfterEnd    func(h uint64, r abci.ResponseEndBlock)
-	AfterCommit func(h uint64)
+	AfterBegin func(req BlockReq)
+	BeforeTx   func(m *TxMeta)
+	AfterTx    func(m *TxMeta, r abci.ResponseDeliverTx)
+	BeforeEnd  func(h uint64)
+	AfterEnd   func(h uint64, r abci.ResponseEndBlock)
+	// BeforeCommit / AfterNodeCommit bracket the Commit of the primary node (the mirrors commit later)
+	BeforeCommit    func(h uint64)
+	AfterNodeCommit func(h uint64)
+	AfterCommit     func(h uint64)
 }
 
 // BlockOpts tunes the block generator.
@@ -353,7 +356,13 @@ func (r *Runner) Finish() bool {
 	if r.H.AfterEnd != nil {
 		r.H.AfterEnd(h, resp)
 	}
+	if r.H.BeforeCommit != nil {
+		r.H.BeforeCommit(h)
+	}
 	_, okc := n.Commit()
+	if r.H.AfterNodeCommit != nil {
+		r.H.AfterNodeCommit(h)
+	}
 	for _, m := range r.Mirrors {
 		m.Commit()
 		if !r.MirrorSkipAppHash && !r.sameTail(m) {
